@@ -294,6 +294,11 @@ def init_table(w, name):
             return
         if isinstance(value, ast.IfExp):
             p = is_not_none_test(value.test)
+            if p is None and isinstance(value.test, ast.Compare) and isinstance(value.test.left, ast.Name) \
+                    and is_none_test(value.test, value.test.left.id):
+                # normalised spelling `<default> if p is None else p`: the same rule with the branches exchanged
+                p = value.test.left.id
+                value = ast.IfExp(test=value.test, body=value.orelse, orelse=value.body)
             if p in state and isinstance(value.body, ast.Name) and value.body.id == p:
                 if isinstance(value.orelse, ast.Name) and value.orelse.id in state:
                     put(p, target_attr(t), f"(KOrParam {cstr(value.orelse.id)})")
